@@ -96,14 +96,35 @@ def gen_programs(ctx, n):
         n_items = rng.sample(range(-20, 40), rng.randint(3, 8))
         mix = rng.sample(WORDS, 3) + rng.sample(range(0, 30), 3) + ["TRUEX"]
         rng.shuffle(mix)
-        header = (f"def S = {lit_set(s_items)}; def T = {lit_set(t_items)}; "
-                  f"def M = <<<{', '.join(lit(k) + ' => ' + str(i) for i, k in enumerate(m_items))}>>>; "
-                  f"def M2 = <<<'fig' => 1, 'kiwi' => 2, 'zz' => 3, 'aa' => 4>>>; "
-                  f"def N = {lit_set(n_items)}; def MIX = <<{', '.join(lit(x) if x != 'TRUEX' else 'TRUE' for x in mix)}>>; "
-                  "def while_result(q) do def l = list(q); def i = 0; def out = []; while i < length(l) do append(out, l[i]); i += 1 end; out end; ")
+        def mk_header(order):
+            si, ti, mi, ni, mx, m2 = order
+            return (f"def S = {lit_set(si)}; def T = {lit_set(ti)}; "
+                    f"def M = <<<{', '.join(lit(k) + ' => ' + str(v) for k, v in mi)}>>>; "
+                    f"def M2 = <<<{', '.join(lit(k) + ' => ' + str(v) for k, v in m2)}>>>; "
+                    f"def N = {lit_set(ni)}; def MIX = <<{', '.join(lit(x) if x != 'TRUEX' else 'TRUE' for x in mx)}>>; "
+                    "def while_result(q) do def l = list(q); def i = 0; def out = []; while i < length(l) do append(out, l[i]); i += 1 end; out end; ")
+        m_pairs = [(k, i) for i, k in enumerate(m_items)]
+        m2 = [('fig', 1), ('kiwi', 2), ('zz', 3), ('aa', 4)]
+        header = mk_header((s_items, t_items, m_pairs, n_items, mix, m2))
+        # the same collections built in another order (construction-order twin)
+        sh = lambda xs: rng.sample(list(xs), len(xs))   # noqa
+        twin = mk_header((sh(s_items), sh(t_items), sh(m_pairs), sh(n_items), sh(mix), sh(m2)))
         for t in (TEMPLATES if ctx.thorough else rng.sample(TEMPLATES, 40)):
             progs.append(header + t)
+            TWINS[header + t] = twin + t
     return progs
+
+
+TWINS = {}
+
+
+def canon_dump(d):
+    """value dumps list map entries in storage order (needed against the model's heap); as VALUES maps are unordered"""
+    if isinstance(d, tuple):
+        if d and d[0] == 'm' and len(d) == 2 and isinstance(d[1], tuple):
+            return ('m', tuple(sorted((canon_dump(e) for e in d[1]), key=repr)))
+        return tuple(canon_dump(x) for x in d)
+    return d
 
 
 def run(ctx):
@@ -114,7 +135,7 @@ def run(ctx):
     ctx.rule = ("generated programs that build sets and maps of strings and mixed scalars (3..9 elements) and send them through every "
                 "iteration, conversion, spread, destructuring, rendering and comprehension path, the set/list/stat library functions and the "
                 f"seeded random functions, plus every function of the base environment applied to sets and maps of strings in 11 argument shapes; each program executed in {nseeds} fresh processes with different PYTHONHASHSEED values; value, "
-                "printed output and error must be identical across all of them and equal to the model evaluator's (seed-free) answer; "
+                "printed output and error must be identical across all of them, identical to the run of a twin program that builds the same collections from differently ordered literals, and equal to the model evaluator's (seed-free) answer; "
                 "non-trivial = a collection of >= 3 string elements (their hash order differs between seeds)")
     tmp = tempfile.mkdtemp(prefix="c12")
     try:
@@ -153,6 +174,23 @@ def run(ctx):
                           {"op": "hashseed", "src": src, "seeds": [sa, sb], "results": [list(a), list(b)]})
         if base[i][0] == "host":
             ctx.count("host_outcomes")
+    # ---------------- construction order: the same collections built from differently ordered literals give the same answer
+    s2 = session.ImplSession(legacy=True)
+    try:
+        for src in progs:
+            twin = TWINS.get(src)
+            if twin is None or "random" in src.lower() or "set_seed" in src:
+                continue
+            s2.it.environment.map.clear()
+            a = s2.run(src)
+            s2.it.environment.map.clear()
+            b = s2.run(twin)
+            ctx.count("construction_order_twins")
+            if (canon_dump(a[0][:2]), a[1]) != (canon_dump(b[0][:2]), b[1]):
+                ctx.violation("oracle", f"the same collections built in another order give {b[0][:2]} instead of {a[0][:2]}: {src[-100:]}",
+                              {"op": "construction-order", "src": src, "twin": twin})
+    finally:
+        s2.close()
     ctx.count("seeds", len(seeds))
     ctx.count("program_runs", len(seeds) * len(progs))
     # ---------------- the model evaluator has no hash order at all: its answer must be the implementation's
